@@ -354,25 +354,6 @@ fn cache_new<'a>() -> (c: Cache<'a>)
     ensures forall|k: (Nonterminal, usize)| (#[trigger] cache_lookup(c, k)) is None
 { unimplemented!() }
 
-// ---- the types in the signature of parse() that its verified prefix never looks into ------------------
-#[verifier::external_type_specification]
-#[verifier::external_body]
-pub struct ExPath(std::path::Path);
-#[verifier::external_body]
-pub struct Error { _p: u8 }
-pub mod term {
-    #[verifier::external_body]
-    pub struct Term<'a> { _p: std::marker::PhantomData<&'a u8> }
-}
-// R16: `return Err(error_factories.into_iter().map(|f| f(source_path, source_contents)).collect())` -- the
-// rejecting exit of parse(); which messages it carries is outside the property
-#[verifier::external_body]
-fn parse_rejected<'a>() -> Result<term::Term<'a>, Vec<Error>> { unimplemented!() }
-// R16: everything in parse() after [tag:error_check] (the three re-association calls, resolve_variables,
-// check_definitions) is cut from the woven copy and replaced by this opaque call
-#[verifier::external_body]
-fn parse_remainder<'a>() -> Result<term::Term<'a>, Vec<Error>> { unimplemented!() }
-
 // every memoised result is a good result for its key
 spec fn cache_inv<'a>(c: Cache<'a>, s: Seq<Token<'a>>) -> bool {
     forall|k: (Nonterminal, usize)| (#[trigger] cache_lookup(c, k)) is Some ==> good(k.0, cache_lookup(c, k)->Some_0, s, k.1 as int)
